@@ -764,6 +764,27 @@ func (x *Exec) compileCall(env *Env, e *SCall) Value {
 			return a
 		}
 		env.fail("string() of %s", a.Ty)
+	case "runeAt", "runeLen":
+		// the rune decoded at byte i of a byte slice (utf8.DecodeRune(s[i:])), and its width
+		a, i := argTV(0), argTV(1)
+		if a.T.Sort != SSlice {
+			env.fail("%s needs a []byte", e.Fun)
+		}
+		h := x.specHeapByKey(env, x.ti.HeapKey(tByte), x.ti.HeapSort(tByte))
+		if oh := x.oldHeapOf[a.T]; oh != nil {
+			if hh, ok := oh[x.ti.HeapKey(tByte)]; ok {
+				h = hh
+			}
+		}
+		fn := "brune"
+		ty := types.Type(types.Typ[types.Int32])
+		if e.Fun == "runeLen" {
+			fn = "brunelen"
+			ty = tInt
+		}
+		x.declareFun("brune", "(declare-fun brune ((Array Int Int) Int Int) Int)")
+		x.declareFun("brunelen", "(declare-fun brunelen ((Array Int Int) Int Int) Int)")
+		return TV{App(fn, SInt, Select(h, Sel("s-ref", a.T)), Add(Sel("s-off", a.T), i.T), Sub(Sel("s-len", a.T), i.T)), ty}
 	case "errseen":
 		if env.st == nil || env.st.errSeen == nil {
 			return TV{False, tBool}
